@@ -28,3 +28,5 @@ def run(ck):
     pipeline.store_pipeline(ck, "C01.R2", want_bounds=False)
     dtype.language_rules(ck, "C12.R1", "C12.R2")      # conversion through a dtype string: the reader gives back the writer's format
     conv.getitem_keeps_map(ck, "C17.R6")              # element views keep the destination's configuration
+    sizes.resize_rules(ck, {"restore_scaled": "C17.R2"})
+    fresh.no_hidden_state(ck, "C20.R8")                  # results depend on the documented state only (no caches / memos)
